@@ -48,6 +48,7 @@ def run(ctx):
     s.holomorphy(("_calc_force_bias",))
     s.restricted_consumes_trial_data("force_bias")
     s.cholesky_axis_complete(("_calc_force_bias",))
+    s.estimator_sees_the_trial("force_bias")
     s.rhf_restricted_vs_unrestricted("force_bias")
     s.cisd_overlap_ratio()
     s.ucisd_overlap_ratio()
